@@ -248,7 +248,9 @@ def _build_and_run(acc: Acc, linter, specs, tag):
 
         for rule, line in missing:
             nm, an, wrap, asyncfn = describe(line)
-            acc.fail({"linter": linter, "mode": "missing", "rule": rule, "stmt": nm, "attrs": an, "wrap": wrap, "config": cfgname}, {**case, "line": line}, {"reported": (rule, line)}, "not reported", tag)
+            in_test = bool(ATTRS.get(an, ([], False))[1]) or wrap in ("cfgtest1", "cfgtest2", "mod-in-cfgtest")
+            ctx = "?" if an == "?" else ("test-context" if in_test else "production-code")
+            acc.fail({"linter": linter, "mode": "missing", "rule": rule, "stmt": nm, "context": ctx, "config": cfgname}, {**case, "line": line, "attrs": an, "wrap": wrap}, {"reported": (rule, line)}, "not reported", tag)
         src = text.split("\n")
         for rule, line in extra:
             ctx = src[line - 1].strip() if 0 < line <= len(src) else ""
@@ -271,7 +273,10 @@ def _stmt_at(text, line, specs, linter):
     # which planted statement: first whose text matches the source line
     s_line = src[line - 1].strip()
     nm = next((n for n in names if any(x.strip() == s_line for x in stmts[n][1])), names[0])
-    return f"{nm}|{an}|{wrap}|{'async' if asyncfn else 'sync'}"
+    # one root cause = one signature: the statement and the two facts the model depends on
+    # (test context, async fn); the concrete attribute list / wrapper stay in the replay case
+    in_test = bool(ATTRS.get(an, ([], False))[1]) or wrap in ("cfgtest1", "cfgtest2", "mod-in-cfgtest")
+    return f"{nm}|{'test-context' if in_test else 'production-code'}|{'async' if asyncfn else 'sync'}"
 
 
 def run_item(item) -> Acc:
